@@ -43,6 +43,7 @@ KERNELS = {
     "apply_indices_to_index_values": {"owner": "C09"},
     "map_valid": {"owner": "C04"},
     "ordered_map_valid_partial": {"owner": "C04", "mutated": [5]},   # result_data is written in place
+    "ordered_map_valid_indexed_partial": {"owner": "C04", "mutated": [8, 9]},  # result_indices, result_values
     "next_map_subchunk": {"owner": "C04"},
     "get_valid_value_extents": {"owner": "C04"},
     "generate_ordered_map_to_left_both_unique_partial": {"owner": "C03", "mutated": [2]},
@@ -59,8 +60,10 @@ KERNELS = {
     "compare_indexed_rows_for_journalling": {"owner": "C17", "mutated": [6]},
     "merge_journalled_entries": {"owner": "C17", "mutated": [5]},              # returns None: the result is `dest`
     "merge_indexed_journalled_entries_count": {"owner": "C17"},
+    "merge_indexed_journalled_entries": {"owner": "C17", "mutated": [7, 8]},   # returns None: (dest_inds, dest_vals)
     "categorical_transform": {"owner": "C06", "mutated": [0]},                 # returns None: the result is `chunk`
     "leaky_categorical_transform": {"owner": "C06", "mutated": [0, 1, 2]},     # chunk, freetext_indices, freetext_values
+    "fixed_string_transform": {"owner": "C06", "mutated": [6]},                # returns None: the result is `memory`
     "generate_ordered_map_to_left_both_unique": {"owner": "C19", "mutated": [2]},
     "generate_ordered_map_to_left_right_unique": {"owner": "C19", "mutated": [2]},
     "ordered_inner_map_both_unique": {"owner": "C19", "mutated": [2, 3]},      # returns None
@@ -361,9 +364,78 @@ def derive_c04(case):
     return None
 
 
+def indexed_partial_safe(m, sm_end, indices, i_start, i_max, values, mv_start, cap_i, cap_v, inv, sm, ri, rv):
+    """every subscript of ordered_map_valid_indexed_partial is in range (a negative one within -len..-1 wraps, still in range)"""
+    if not _inr(i_start, len(indices)):
+        return False
+    v_off = indices[i_start]
+    while sm < sm_end:
+        if not _inr(sm, len(m)):
+            return False
+        if m[sm] == inv:
+            if not _inr(ri, cap_i):
+                return False
+        else:
+            i = m[sm] - mv_start
+            if i >= i_max:
+                return True
+            if not (_inr(i, len(indices)) and _inr(i + 1, len(indices))):
+                return False
+            v_start, v_end = indices[i] - v_off, indices[i + 1] - v_off
+            if rv + v_end - v_start > cap_v:
+                return True
+            for v in range(v_start, v_end):
+                if not (_inr(v, len(values)) and _inr(rv, cap_v)):
+                    return False
+                rv += 1
+            if not _inr(ri, cap_i):
+                return False
+        sm += 1
+        ri += 1
+    return True
+
+
+def random_c04_indexed(rng):
+    inv = rng.choice([-1, -1, 4611686018427387904])
+    nrows = rng.randrange(1, 8)
+    lens = [rng.choice([0, 1, 1, 2, 4]) for _ in range(nrows)]
+    base = rng.randrange(0, 5)                                 # the offsets window does not start at 0
+    indices = [base]
+    for ln in lens:
+        indices.append(indices[-1] + ln)
+    i_start = rng.randrange(0, nrows)
+    i_max = rng.randrange(i_start + 1, nrows + 1)
+    values = [rng.randrange(1, 200) for _ in range(indices[i_max] - indices[i_start] + rng.choice([0, 0, 2]))]
+    mv_start = rng.randrange(0, 30)
+    n = rng.randrange(0, 8)
+    m = sorted(mv_start + rng.randrange(i_start, min(nrows, i_max + 1)) for _ in range(n))
+    m = [inv if rng.random() < 0.25 else k for k in m]
+    what = rng.randrange(12)
+    if what == 0:
+        m = [inv if k == inv else k - rng.randrange(0, 3) for k in m]          # entries below the window
+    elif what == 1:
+        values = values[:rng.randrange(0, len(values) + 1)]
+    sm = rng.randrange(0, n + 1)
+    sm_end = n if rng.random() < 0.8 else rng.randrange(sm, n + 2)
+    cap_i = rng.choice([n + 1, n + 1, max(n - 1, 0), 2])
+    cap_v = rng.choice([0, 1, 3, 8, 64])
+    ri = 0 if rng.random() < 0.7 else rng.randrange(0, cap_i + 1)
+    rv = 0 if rng.random() < 0.7 else rng.randrange(0, cap_v + 1)
+    acc = rng.randrange(0, 50)
+    I = lambda v: {"int": int(v)}                     # noqa: E731,E741
+    return gcase("ordered_map_valid_indexed_partial",
+                 [arr(m), I(0), I(sm_end), arr(indices), I(i_start), I(i_max), arr(values), I(mv_start), arr([5] * cap_i),
+                  arr([6] * cap_v), I(inv), I(sm), I(ri), I(rv), I(acc)],
+                 unsafe=not indexed_partial_safe(m, sm_end, indices, i_start, i_max, values, mv_start, cap_i, cap_v, inv, sm, ri, rv),
+                 fuel=n + 4, _from="random")
+
+
 def random_c04(rng, n_cases):
     out = []
     for t in range(n_cases):
+        if t % 5 == 4:
+            out.append(random_c04_indexed(rng))
+            continue
         inv = rng.choice([-1, -1, 2147483647, 4611686018427387904])
         nsrc = rng.choice([0, 1, 2, 5, rng.randrange(1, 30)])
         n = rng.choice([0, 1, 2, 3, rng.randrange(1, 25)])
@@ -634,9 +706,59 @@ def random_c17_indexed(rng):
                  unsafe=not compare_indexed_safe(om, nm, oi, ov, ni, nv, tk), _from="random")
 
 
+def merge_indexed_safe(om, nm, tk, oi, ni, capI):
+    """every scalar subscript of merge_indexed_journalled_entries is in range (slices never raise IndexError)"""
+    if capI < 1:
+        return False
+    cur_old, cur_dest = 0, 1
+    for i in range(len(om)):
+        while cur_old <= om[i]:
+            if not (_inr(cur_old + 1, len(oi)) and _inr(cur_old, len(oi)) and _inr(cur_dest, capI)):
+                return False
+            cur_old += 1
+            cur_dest += 1
+        if i >= len(tk):
+            return False
+        if tk[i]:
+            if i >= len(nm) or not (_inr(nm[i] + 1, len(ni)) and _inr(nm[i], len(ni)) and _inr(cur_dest, capI)):
+                return False
+            cur_dest += 1
+    return True
+
+
+def random_c17_merge_indexed(rng):
+    no, nn, om, nm, tk = _journal_maps(rng)
+    mk = lambda k: [[rng.randrange(1, 9)] * rng.choice([0, 1, 1, 2]) for _ in range(k)]      # noqa: E731
+    orows, nrows = mk(no), mk(nn)
+    oi, ni = [0], [0]
+    for r in orows:
+        oi.append(oi[-1] + len(r))
+    for r in nrows:
+        ni.append(ni[-1] + len(r))
+    ov, nv = [c for r in orows for c in r], [c for r in nrows for c in r]
+    what = rng.randrange(12)
+    if what == 0:
+        om = [rng.randrange(-1, no + 2) for _ in om]
+        nm = [rng.randrange(-2, nn + 2) for _ in nm]
+        tk = [rng.random() < 0.5 for _ in tk]
+    elif what == 1:
+        ov = ov[:rng.randrange(0, len(ov) + 1)]            # values shorter than the offsets say: a slice of the wrong size
+    elif what == 2 and len(oi) > 1:
+        oi = oi[:-1]
+    capI = no + sum(tk) + 1 + rng.choice([0, 0, 0, 0, 1, -1])
+    capV = len(ov) + sum(len(nrows[n]) for n, k in zip(nm, tk) if k and 0 <= n < nn) + rng.choice([0, 0, 0, 2, -1])
+    capI, capV = max(capI, 0), max(capV, 0)
+    return gcase("merge_indexed_journalled_entries",
+                 [arr(om), arr(nm), barr(tk), arr(oi), arr(ov), arr(ni), arr(nv), arr([0] * capI), arr([0] * capV)],
+                 unsafe=not merge_indexed_safe(om, nm, tk, oi, ni, capI), fuel=len(oi) + no + 4, _from="random")
+
+
 def random_c17(rng, n_cases):
     out = []
     for t in range(n_cases):
+        if t % 5 == 4:
+            out.append(random_c17_merge_indexed(rng))
+            continue
         if t % 4 == 3:
             out.append(random_c17_indexed(rng))
             continue
@@ -687,6 +809,25 @@ def categorical_safe(chunk_n, ic, cinds, vals, coffs, keys, index, values):
     return True
 
 
+def fixed_string_safe(cinds, vals, coffs, ic, rows, strlen, nmem):
+    if not _inr(ic, len(coffs)):
+        return False
+    if rows > 0 and not _inr(ic, len(cinds)):
+        return False
+    for r in range(rows):
+        row = cinds[ic]
+        if not (_inr(r, len(row)) and _inr(r + 1, len(row))):
+            return False
+        a = r * strlen
+        start = row[r] + coffs[ic]
+        end = min(row[r + 1] + coffs[ic], start + strlen)
+        for c in range(start, end):
+            if not (_inr(c, len(vals)) and _inr(a, nmem)):
+                return False
+            a += 1
+    return True
+
+
 def random_c06(rng, n_cases):
     out = []
     words = [b"", b"a", b"b", b"ab", b"abc", b"ba", b"yes", b"no", b"a ", b"n"]
@@ -723,7 +864,16 @@ def random_c06(rng, n_cases):
         elif what == 3:
             values = values[:-1]
         chunk_n = nrows if rng.random() < 0.8 else rng.randrange(0, nrows + 2)
-        if t % 2:
+        if t % 3 == 2:
+            strlen = rng.choice([0, 1, 2, 3, 5])
+            rows = chunk_n
+            nmem = rows * strlen if rng.random() < 0.9 else rng.randrange(0, rows * strlen + 2)
+            bvals = [v if rng.random() < 0.8 else rng.randrange(128, 256) for v in vals]      # bytes above 127: np.int8 wraps
+            out.append(gcase("fixed_string_transform",
+                             [arr2(cinds), arr(bvals), arr(coffs), {"int": ic}, {"int": rows}, {"int": strlen}, arr([0] * nmem)],
+                             unsafe=not fixed_string_safe(cinds, bvals, coffs, ic, rows, strlen, nmem), _from="random"))
+            continue
+        if t % 3 == 1:
             nidx = chunk_n + 1 if rng.random() < 0.9 else rng.randrange(0, chunk_n + 2)
             cap = coffs[ic + 1] - coffs[ic] if ic < ncols else 3
             nval = cap if rng.random() < 0.9 else rng.randrange(0, cap + 1)
